@@ -58,11 +58,13 @@ def cnat(n):
     assert 0 <= n < 5000
     return "n%d" % n if n < 10 else "%d%%nat" % n
 
-RULE = ("histories of queries (isomorphic / get_mappings / _pre_check / boolean subgraph tests of both modules / graph_isomorphism) by "
-        "several engines with different attribute selections and filter flags sharing graph objects; all pairs of iso classes of "
-        "small labelled graphs (each also against a relabelled copy), random pairs <= 8 nodes with relabelled copies, one-edit "
-        "neighbours and planted sub-patterns, exhaustive short query sequences; a case is non-trivial when its answers contain both "
-        "a positive and a negative verdict; distinct = distinct case contents")
+RULE = ("histories of queries (isomorphic / get_mappings / _pre_check / the three boolean subgraph entry points with their options as the "
+        "caller writes them / graph_isomorphism / find_graph_isomorphism / the engine constructor) by several engines with different "
+        "attribute selections and filter flags sharing graph objects; all pairs of iso classes of small labelled graphs (each also "
+        "against a relabelled copy), random pairs <= 8 nodes with relabelled copies, one-edit neighbours and planted sub-patterns, "
+        "exhaustive short query sequences, graphs as SynKit's own converters write them (list- / tuple-valued attributes, ITS graphs), "
+        "calls of the common-subgraph helpers; a case is non-trivial when its answers contain both a positive and a negative verdict; "
+        "distinct = distinct case contents")
 EXHAUSTIVE = {"quick": True, "thorough": True}
 EXPLANATION = ("Exhaustive sub-space (both tiers): all unordered pairs of iso classes <= 3 nodes over 2 elements x {absent, order 1, "
                "order 2} (plus every class against a relabelled copy of itself), all ordered pairs <= 2 nodes with hcount {0,1}, all ordered "
@@ -71,7 +73,8 @@ EXPLANATION = ("Exhaustive sub-space (both tiers): all unordered pairs of iso cl
                "engines and of length <= 3 over 3 engines whose attribute selections are a permutation / a subset of each other; every "
                "filter flag, induced and monomorphism mode, every facade by keyword and positionally, several attribute selections, "
                "queries issued in PRNG order on shared graph objects.  The rest (3-node hcount pairs, random pairs <= 8 nodes, 10-14 node "
-               "pairs, long histories, histories with in-place edits; thorough: 4-node classes) is sampled.")
+               "pairs, long histories, histories with in-place edits, raw option values, constructor keyword sets, common-subgraph calls, "
+               "SynKit / ITS graphs; thorough: 4-node classes) is sampled.")
 TRUSTED_BASE = [
     "Coq 8.16.1 kernel + vm_compute (no native_compute)",
     "hand-written model coq/model/C07_Model.v tied to graph_matcher.py / subgraph_matcher.py (SubgraphMatch) / graph_morphism.py by the per-run correspondence",
@@ -84,7 +87,8 @@ TRUSTED_BASE = [
 ]
 ASSUMPTIONS = ["simple undirected graphs without self-loops (gwf: distinct node ids, edges join distinct nodes, one attribute dict per unordered pair)",
                "hcount, when present, is a non-negative int",
-               "attribute values are JSON scalars compared with Python ==; values of one attribute are mutually comparable (absent is allowed)",
+               "attribute values are JSON scalars or (nested) lists of them compared with Python ==; values of one attribute are mutually "
+               "comparable and of one kind (absent is allowed; a list and a tuple with the same items are not told apart by the encoder)",
                "graph objects are not mutated between queries of WL-FILTERING engines (the class documents that its histogram cache goes "
                "stale otherwise); engines without the filter are covered under in-place edits (C07_edits_wl_off)",
                "custom node/edge comparators of the subgraph tests: the modelled family (eq, accept-all, symmetric wildcard, pattern-side wildcard); "
@@ -121,7 +125,7 @@ LEVEL_TEXT = ("Machine-checked proof (Coq, all inputs, Closed under the global c
 LEVEL_NOTE = ("Trusted: Coq kernel, the model, the harness encoder, the VF2 contracts (monitored, networkx is not verified). "
               "Theorems assume well-formed simple graphs and unmutated graph objects.")
 
-KEYS = {"hcount": 0, "element": 1, "charge": 2, "aromatic": 3, "order": 4, "atom_map": 5}
+KEYS = {"hcount": 0, "element": 1, "charge": 2, "aromatic": 3, "order": 4, "atom_map": 5, "neighbors": 6, "typesGH": 7}
 
 
 # ------------------------------------------------------------------ implementation adapter
@@ -283,8 +287,11 @@ class _Recording:
     arguments and answer.  Behaviour is unchanged; everything is restored on exit."""
 
     def __enter__(self):
+        import networkx.algorithms.isomorphism as NXI
         from synkit.Graph.Matcher import graph_matcher as M1, subgraph_matcher as M2, graph_morphism as M3
-        self.saved = [(M1, "_NXGraphMatcher", M1._NXGraphMatcher), (M2, "GraphMatcher", M2.GraphMatcher), (M3, "GraphMatcher", M3.GraphMatcher)]
+        # (find_graph_isomorphism and nx.is_isomorphic look the class up in networkx's own namespace at call time)
+        self.saved = [(M1, "_NXGraphMatcher", M1._NXGraphMatcher), (M2, "GraphMatcher", M2.GraphMatcher), (M3, "GraphMatcher", M3.GraphMatcher),
+                      (NXI, "GraphMatcher", NXI.GraphMatcher)]
         cls = _rec_matcher_class()
         for mod, name, _ in self.saved:
             setattr(mod, name, cls)
@@ -315,9 +322,13 @@ def _trace(q, gs):
     ev, _Rec.events = _Rec.events, []
     pre = [e for e in ev if e[0] == "pre"]
     gm = [e for e in ev if e[0] == "gm"]
+    k = q[0]
+    if k == "fgi":
+        return len(gm) == 1 if len(gm) <= 1 else [1000 + len(gm)]
+    if k not in ("iso", "maps", "sub"):
+        return None
     if len(gm) > 1 or len(pre) > 1:
         return [1000 + len(gm), len(pre)]            # never equals a model value
-    k = q[0]
     if k == "iso":
         if len(pre) != 1:
             return [1001]
@@ -408,7 +419,7 @@ def _run_query(q, gs, engs, specs):
 
 def _obs(q, r, gs, specs, trace=None):
     if q[0] == "fgi":
-        return [r is not None, len(r) if r is not None else 0]
+        return [r is not None, len(r) if r is not None else 0, trace]
     if q[0] in ("ctor", "obj"):
         return list(r) if isinstance(r, list) else r
     if q[0] == "iso":
@@ -509,17 +520,20 @@ def _impl_mccs(case):
     sigs = [_graph_sig(g) for g in gs]
     codes, dyn = _intern(case)
     out, untouched = [], True
-    for q in case["queries"]:
-        r = _mccs_call(q, gs)
-        if isinstance(r, list):
-            out.append(r)
-            continue
-        out.append(_graph_obs(r, codes, dyn))
-        if isinstance(r, nx.Graph):           # the caller edits the returned graph: the inputs must not notice (it is a copy)
-            r.add_node("spoiled", element="X")
-            for n in list(r.nodes):
-                r.nodes[n]["element"] = "X"
-        untouched = untouched and all(_graph_sig(g) == sg for g, sg in zip(gs, sigs))
+    with _Recording():
+        for q in case["queries"]:
+            _Rec.events = []
+            r = _mccs_call(q, gs)
+            built = sum(1 for e in _Rec.events if e[0] == "gm")      # GraphMatcher objects built = admissible candidates examined
+            if isinstance(r, list):
+                out.append(r)
+                continue
+            out.append([_graph_obs(r, codes, dyn), built])
+            if isinstance(r, nx.Graph):           # the caller edits the returned graph: the inputs must not notice (it is a copy)
+                r.add_node("spoiled", element="X")
+                for n in list(r.nodes):
+                    r.nodes[n]["element"] = "X"
+            untouched = untouched and all(_graph_sig(g) == sg for g, sg in zip(gs, sigs))
     return [out, untouched]
 
 
@@ -622,14 +636,14 @@ def _raw_of_spec(s):
     return kw
 
 
-def _craw(kw, short=False):
+def _craw(kw, short=False, dyn=None):
     """Gallina literal of the raw constructor keywords (outer None = keyword omitted); short: through the header's EO when no back-end is named."""
     def lst(k):
         if k not in kw:
             return "None"
         if kw[k] is None:
             return "(Some None)"
-        return "(SS %s)" % clist([cN(_key(a, None)) for a in kw[k]])
+        return "(SS %s)" % clist([cN(_key(a, dyn)) for a in kw[k]])
     be = "None" if "backend" not in kw else "(Some %s)" % clist([cN(b) for b in kw["backend"].encode("ascii")])
     wl = "None" if "wl1_filter" not in kw else "(Some %s)" % cbool(bool(kw["wl1_filter"]))
     mm = "None" if "max_mappings" not in kw else "(Some None)" if kw["max_mappings"] is None else "(SS %s)" % cN(kw["max_mappings"])
@@ -671,7 +685,7 @@ def coq_case(case):
     codes, dyn = _Codes(), {}
     try:
         gs = clist([G.coq_lgraph(g, lambda n, a: _attrs(a, codes, dyn), lambda u, v, a: _attrs(a, codes, dyn)) for g in case["graphs"]])
-        es = clist([_craw(_raw_of_spec(s), short=True) for s in case["engines"]])
+        es = clist([_craw(_raw_of_spec(s), short=True, dyn=dyn) for s in case["engines"]])
         qs = []
         shared = []           # distinct (names, defaults, edge attribute, comparators) literals of the case, let-bound as z0, z1, ...
         ctypes = {"induced": 0}   # check_type strings, interned (the code only tests == "induced")
@@ -820,6 +834,14 @@ def _hset(g):
     return {d.get("hcount", 0) for _, d in g.nodes(data=True)}
 
 
+def _ask(*a):
+    """_run_query for the oracle's reference calls: an exception becomes a value that equals no answer."""
+    try:
+        return _run_query(*a)
+    except Exception as ex:
+        return ["EXC", type(ex).__name__, str(ex)[:200]]
+
+
 def oracle(case):
     fails = []
     if _is_mccs(case):       # the common-subgraph helpers are outside the property text: correspondence (and theorems) only
@@ -836,6 +858,8 @@ def oracle(case):
     version = [0] * len(gs)                       # bumped by every in-place edit
     cached = {}                                   # (object, node_attrs) -> version when a WL-filtering engine may have cached it
     fresh_graph = lambda i: G.to_nx(case["graphs"][cur[i]])
+    answered = {}                                 # (kind, engine, i, j) -> answer, for the cross-check of isomorphic against get_mappings
+    edits = any(q[0] == "edit" for q in case["queries"])
     for t, q in enumerate(case["queries"]):
         if len(fails) >= 3:
             break
@@ -844,7 +868,22 @@ def oracle(case):
             cur[q[1]] = q[2]
             version[q[1]] += 1
             continue
-        got_raw = _run_query(q, gs, engs, specs)
+        try:
+            got_raw = _run_query(q, gs, engs, specs)
+        except Exception as ex:
+            if q[0] not in ("iso", "maps", "pre"):
+                raise
+            # an engine query raised: if the same query answers with the WL filter switched the other way, the filter changed the outcome
+            spec = specs[q[1]]
+            try:
+                a2, b2 = fresh_graph(q[2]), fresh_graph(q[3])
+                other = _run_query(q, {q[2]: a2, q[3]: b2} if q[2] != q[3] else {q[2]: a2},
+                                   {q[1]: _engine(dict(spec, wl=not spec["wl"], omit=[x for x in spec.get("omit", ()) if x != "wl1_filter"]))}, specs)
+            except Exception:
+                continue                          # raises either way: the input is outside the engine's domain
+            bad("filter-neutral", "query %d %r: wl1_filter=%r raises %s: %s where wl1_filter=%r answers %r"
+                % (t, q, spec["wl"], type(ex).__name__, ex, not spec["wl"], other))
+            continue
         got = copy.deepcopy(got_raw)
         _spoil(got_raw)                           # the caller edits what it was handed; later answers must not care
         tag = "query %d %r" % (t, q)
@@ -867,16 +906,29 @@ def oracle(case):
                 if stale:
                     continue
             a, b = fresh_graph(q[2]), fresh_graph(q[3])
-            fresh = _run_query(q, {q[2]: a, q[3]: b} if q[2] != q[3] else {q[2]: a}, {q[1]: _engine(spec)}, specs)
+            fresh = _ask(q, {q[2]: a, q[3]: b} if q[2] != q[3] else {q[2]: a}, {q[1]: _engine(spec)}, specs)
             if fresh != got:
                 bad("history-independent", "%s: answer in this history %r, answer of a fresh engine on fresh graph objects %r" % (tag, got, fresh))
                 continue
             a2, b2 = fresh_graph(q[2]), fresh_graph(q[3])
-            other = _run_query(q, {q[2]: a2, q[3]: b2} if q[2] != q[3] else {q[2]: a2}, {q[1]: _engine(dict(spec, wl=not spec["wl"], omit=[x for x in spec.get("omit", ()) if x != "wl1_filter"]))}, specs)
+            try:
+                other = _run_query(q, {q[2]: a2, q[3]: b2} if q[2] != q[3] else {q[2]: a2}, {q[1]: _engine(dict(spec, wl=not spec["wl"], omit=[x for x in spec.get("omit", ()) if x != "wl1_filter"]))}, specs)
+            except Exception as ex:
+                bad("filter-neutral", "%s: wl1_filter=%r answers %r, wl1_filter=%r raises %s: %s" % (tag, spec["wl"], got, not spec["wl"], type(ex).__name__, ex))
+                continue
             same = (other == got) if k != "maps" else ({frozenset(m.items()) for m in other} == {frozenset(m.items()) for m in got})
             if k != "pre" and not same:
                 bad("filter-neutral", "%s: wl1_filter=%r gives %r, wl1_filter=%r gives %r" % (tag, spec["wl"], got, not spec["wl"], other))
                 continue
+        if k in ("iso", "maps") and not edits and specs[q[1]]["mm"] != 0 and gs[q[2]].number_of_nodes() == gs[q[3]].number_of_nodes():
+            # the two entry points speak about the same bijections: on equal-sized graphs isomorphic(a, b) holds exactly when
+            # get_mappings(a, b) returns something (C07_iso_maps_consistent)
+            answered[(k, q[1], q[2], q[3])] = got
+            other = answered.get(("maps" if k == "iso" else "iso", q[1], q[2], q[3]))
+            if other is not None:
+                iso_ans, maps_ans = (got, other) if k == "iso" else (other, got)
+                if bool(iso_ans) != bool(maps_ans):
+                    bad("iso-maps-consistent", "%s: isomorphic answers %r but get_mappings on the same arguments returns %r" % (tag, iso_ans, maps_ans))
         if k == "iso":
             g1, g2 = gs[q[2]], gs[q[3]]
             nm1, em = _eng_match(spec)
@@ -889,13 +941,13 @@ def oracle(case):
                 gg[q[which]] = _relabelled(gg[q[which]])
                 if q[2] == q[3]:
                     gg = {q[2]: _relabelled(fresh_graph(q[2]))}
-                r = _run_query(q, gg, {q[1]: _engine(spec)}, specs)
+                r = _ask(q, gg, {q[1]: _engine(spec)}, specs)
                 if r != got:
                     bad("relabel-invariant", "%s: verdict %r, after relabelling argument %d: %r" % (tag, got, which - 1, r))
                     break
             hs = _hset(g1) | _hset(g2)
             if len(hs) <= 1:
-                r = _run_query(["iso", q[1], q[3], q[2]], {q[2]: fresh_graph(q[2]), q[3]: fresh_graph(q[3])}, {q[1]: _engine(spec)}, specs)
+                r = _ask(["iso", q[1], q[3], q[2]], {q[2]: fresh_graph(q[2]), q[3]: fresh_graph(q[3])}, {q[1]: _engine(spec)}, specs)
                 if r != got:
                     bad("symmetric", "%s: verdict %r, swapped arguments %r (hcounts equal/absent)" % (tag, got, r))
         elif k == "maps":
@@ -1065,7 +1117,7 @@ def _engines(rng):
     # which must keep them apart (key = the node_attrs tuple in the engine's own order)
     sels = [(["element", "charge"], ["order"]), (["charge", "element"], ["order"]), (["element"], ["order"]), (["element"], []),
             ([], ["order"]), (["element", "charge"], []), (["charge"], ["order"]), (["charge", "element"], []),
-            (["element", "charge", "aromatic"], ["order"])]
+            (["element", "charge", "aromatic"], ["order"]), (["element", "neighbors"], ["order"]), (["neighbors", "typesGH"], []), (["element", "hcount"], ["order"])]
     es = [dict(E_FULL), dict(E_FULL, wl=True)]
     for _ in range(2):
         na, ea = rng.choice(sels)
@@ -1269,6 +1321,11 @@ def _zoo():
         g([(1, C0), (2, {"element": "O"}), (3, C0)], [(1, 2, {"order": 1}), (2, 3, {"order": 1})]),
         g([(1, Cn), (2, C0), (3, {"element": "C", "charge": 1})], [(1, 2, {"order": 1}), (2, 3, {"order": 1}), (1, 3, {"order": 1})]),
         g([(1, Cn), (2, C0), (3, {"element": "C", "charge": 1}), (4, O0)], [(4, 1, {"order": 1}), (4, 2, {"order": 1}), (4, 3, {})]),
+        # list-valued attributes as SynKit's own converters write them (neighbors: list; typesGH: tuple of tuples holding that list)
+        g([(1, dict(C0, neighbors=["O"], typesGH=[["C", False, 3, 0, ["O"]], ["C", False, 3, 0, ["O"]]])),
+           (2, dict(O0, neighbors=["C"], typesGH=[["O", False, 1, 0, ["C"]], ["O", False, 1, 0, ["C"]]]))], [(1, 2, {"order": 1})]),
+        g([(1, dict(C0, neighbors=["C", "O"])), (2, dict(O0, neighbors=["C"])), (3, dict(C0, neighbors=["C"]))], [(1, 2, {"order": 1}), (1, 3, {"order": 1})]),
+        g([(1, dict(C0, neighbors=[])), (2, dict(C0))]),
     ]
 
 
@@ -1306,8 +1363,68 @@ def _gen_mccs(tier, rng):
     return cases
 
 
+SMILES_PAIRS = [("CCO", "OCC"), ("CCO", "COC"), ("CC(=O)O", "OC(C)=O"), ("CC(=O)O", "CC(O)=O"), ("c1ccccc1", "C1=CC=CC=C1"), ("CCN", "CCO"),
+                ("C[N+](C)(C)C", "CN(C)C"), ("CC(C)O", "CCCO"), ("CCO", "CC"), ("OCCO", "CO"), ("C=CC=O", "C=C"), ("[O-]C=O", "OC=O"),
+                ("NCC(=O)O", "OC(=O)CN"), ("CC#N", "N#CC"), ("C1CC1", "CCC"), ("ClCCl", "ClCBr"), ("CS(C)=O", "CSC"), ("c1ccncc1", "c1ccccc1")]
+
+
+def _gen_synkit(tier, rng):
+    """Graphs as SynKit's own converter writes them (smiles_to_graph: element, aromatic, hcount, charge, neighbors (a LIST), atom_map):
+    the same molecule written in another atom order, isomers, substructures; engines that select the list-valued attribute."""
+    from synkit.IO.chem_converter import smiles_to_graph
+    cases = []
+    sels = [(["element", "neighbors"], ["order"]), (["element", "charge", "neighbors", "aromatic"], ["order"]), (["neighbors"], []),
+            (["element", "charge"], ["order"]), (["element", "aromatic"], [])]
+    for a, b in SMILES_PAIRS:
+        ga, gb = G.from_nx(smiles_to_graph(a)), G.from_nx(smiles_to_graph(b))
+        gs = [ga, _present(gb, rng, extra=12), _present(ga, rng, extra=12)]
+        es = []
+        for na, ea in rng.sample(sels, 3):
+            es.append({"na": list(na), "ea": list(ea), "wl": True, "mm": rng.choice([None, 1])})
+        es.append(dict(es[0], wl=False))
+        if tier == "quick" and len(ga["nodes"]) > 5:
+            for s in es:
+                if s["na"] == ["neighbors"]:
+                    s["mm"] = 2
+        cases.append(dict(kind="synkit", graphs=gs, engines=es,
+                          queries=_battery(rng, [(0, 1), (1, 0), (0, 2)], len(es), nosubs=((0, 2),), alt=False, nfixed=4)))
+    return cases
+
+
+RSMI = ["[CH3:1][OH:2].[H:3][Cl:4]>>[CH3:1][Cl:4].[H:3][OH:2]",
+        "[CH3:1][CH2:2][Br:3].[OH2:4]>>[CH3:1][CH2:2][OH:4].[BrH:3]",
+        "[CH2:1]=[CH2:2].[H:3][H:4]>>[CH3:1][CH3:2]",
+        "[CH3:1][C:2](=[O:3])[OH:4].[CH3:5][OH:6]>>[CH3:1][C:2](=[O:3])[O:6][CH3:5].[OH2:4]",
+        "[CH3:1][CH:2]=[O:3].[H:4][C:5]#[N:6]>>[CH3:1][CH:2]([OH:3])[C:5]#[N:6]",
+        "[CH3:1][Cl:2].[NH3:3]>>[CH3:1][NH2:3].[ClH:2]",
+        "[CH3:1][CH2:2][OH:3]>>[CH2:1]=[CH2:2].[OH2:3]",
+        "[CH3:1][Br:2].[CH3:3][O-:4]>>[CH3:1][O:4][CH3:3].[Br-:2]"]
+
+
+def _gen_its(tier, rng):
+    """ITS graphs as SynKit builds them (tuple-valued `order`, `typesGH` tuples holding the `neighbors` lists, negative
+    `standard_order`): a reaction against its renumbered copy, against ANOTHER reaction, and its reaction centre (a strictly smaller
+    pattern) inside it — the central use of get_mappings in SynKit."""
+    from synkit.IO.chem_converter import rsmi_to_its
+    cases = []
+    sels = [(["element", "charge"], ["order"]), (["typesGH"], ["order"]), (["element", "neighbors"], ["standard_order"]),
+            (["element", "aromatic", "charge"], ["order", "standard_order"]), (["typesGH", "element"], [])]
+    full = [G.from_nx(rsmi_to_its(r, core=False)) for r in RSMI]
+    core = [G.from_nx(rsmi_to_its(r, core=True)) for r in RSMI]
+    for k in range(len(RSMI)):
+        other = full[(k + 1 + rng.randrange(len(RSMI) - 1)) % len(RSMI)]
+        gs = [full[k], _present(core[k], rng, extra=12), _present(full[k], rng, extra=12), _present(other, rng, extra=12)]
+        es = []
+        for na, ea in rng.sample(sels, 3):
+            es.append({"na": list(na), "ea": list(ea), "wl": True, "mm": rng.choice([None, None, 1])})
+        es.append(dict(es[0], wl=False))
+        cases.append(dict(kind="its", graphs=gs, engines=es,
+                          queries=_battery(rng, [(0, 1), (1, 0), (0, 2), (0, 3)], len(es), nosubs=((0, 2), (0, 3)), alt=False, nfixed=4)))
+    return cases
+
+
 def gen_cases(tier, rng):
-    cases = _gen_mccs(tier, rng)
+    cases = _gen_mccs(tier, rng) + _gen_synkit(tier, rng) + _gen_its(tier, rng)
     # ---- degenerate values: all ordered pairs of the zoo (second graph renumbered), every entry point
     zoo = _zoo()
     for a in zoo:
@@ -1317,7 +1434,7 @@ def gen_cases(tier, rng):
             es[2] = {"na": ["element", "charge"], "ea": ["order"], "wl": True, "mm": 1, "omit": ["max_mappings"]}
             if rng.random() < 0.5:
                 es[3] = {"na": ["charge"], "ea": [], "wl": True, "mm": None}
-            cases.append(dict(kind="degenerate", graphs=gs, engines=es, queries=_battery(rng, [(0, 1)], len(es))))
+            cases.append(dict(kind="degenerate", graphs=gs, engines=es, queries=_battery(rng, [(0, 1)], len(es), nfixed=5, thin=0.3)))
     # ---- sizes >= 10 nodes (two-digit ids and counts): relabelled copy / one edit / planted sub-pattern
     for t in range(12 if tier == "quick" else 40):
         n = rng.randint(10, 14)
